@@ -17,6 +17,11 @@ CLAIMED = {
         text="TLC proves one-winner, callback-at-most-once, no-run-after-destructor, destructor-waits, source-count bookkeeping and registered-callback-runs (fair) on the abstract spec, and shows each named deviation violates them; recorded histories of the real objects (handle copy/move/assign/swap sequences; concurrent request_stop / callback construction / destruction incl. from inside callbacks, on pika tasks and OS threads, with delays injected at the st.* hooks between load and CAS) must be behaviours of the spec",
         note="sequential consistency; sampled schedules widened by hook delays, not exhaustive; handle objects themselves are used from one thread at a time (documented precondition)",
         design="5/C14"),
+    "C17": dict(
+        technique="TLA+ fine-grained spec IndexQueueImpl (load/CAS steps) model-checked by TLC + TLC linearizability checking of recorded concurrent histories of all containers against the sequential TLA+ spec QueueAbs",
+        text="TLC proves exactly-once, partition and termination for the index queue's CAS protocol (3 threads, all interleavings) and checks every recorded concurrent history of the real index queue, Michael deque and the four lockfree back-ends (1-4 threads, hook-injected delays between anchor load and CAS) for linearizability against the sequential spec, including a quiescent drain that must return every remaining element exactly once",
+        note="sequential consistency in the model; histories sampled; moodycamel ConcurrentQueue black-box; no fine-grained model of Michael's deque yet",
+        design="5/C17"),
 }
 
 NOT_YET = {}
